@@ -125,6 +125,18 @@ def w_equiv(case):
 
 
 OPS = {'nop': [0xF0], 'setindex': [0xF1], 'setbitrate0': [0xF2, 0x00], 'setbitrate72': [0xF2, 72], 'setbitrate255': [0xF2, 0xFF]}
+# SKIPBITS n (HxC HFEv3: "F3 <n>: skip the first n bits of the following byte"): a writer that places it between
+# cells at byte position p emits F3, n, then n junk bits followed by the unchanged remainder of the bit stream
+for _n in range(8):
+    OPS['skipbits%d' % _n] = [0xF3, _n]
+
+
+def with_skipbits(stream, pos, n, junk):
+    bits = []
+    for b in stream[pos:]:
+        bits += [(b >> i) & 1 for i in range(8)]
+    new = [junk] * n + bits
+    return stream[:pos] + bytes([flux.revbits(0xF3), flux.revbits(n)]) + flux.pack_lsb_first(new)
 
 
 def w_opcodes(case):
@@ -150,6 +162,8 @@ def w_opcodes(case):
         opbytes = bytes(flux.revbits(b) if i == 0 else flux.revbits(b) for i, b in enumerate(OPS[case['op']]))
         for pos in range(case['lo'], min(case['hi'], len(streams[0]) + 1)):
             s0 = streams[0][:pos] + opbytes + streams[0][pos:]
+            if case['op'].startswith('skipbits'):
+                s0 = with_skipbits(streams[0], pos, OPS[case['op']][1], (pos >> 3) & 1)
             for pos2 in ([None] if not case.get('second') else [pos + len(opbytes) + k for k in range(0, 4)]):
                 if pos2 is not None:
                     s0b = s0[:pos2] + bytes([flux.revbits(0xF0)]) + s0[pos2:]
@@ -163,7 +177,7 @@ def w_opcodes(case):
                 else:
                     blk = 'block-boundary' if (pos % 256) + len(opbytes) > 256 or (pos % 256 == 255 and len(opbytes) > 1) else 'inside-block'
                     bump(res, 'differs-' + blk)
-                    res['viol'].append(('C05:hfe3:%s:opcode:%s:%s' % (enc.lower(), 'arg' if len(opbytes) > 1 else 'noarg', blk),
+                    res['viol'].append(('C05:hfe3:%s:opcode:%s:%s' % (enc.lower(), 'skipbits' if case['op'].startswith('skipbits') else ('arg' if len(opbytes) > 1 else 'noarg'), blk),
                                         'HFEv3 %s track: opcode %s inserted at stream byte %d%s: %s, %d bytes (want %d) %r' % (
                                             enc, case['op'], pos, '' if pos2 is None else ' and NOP at %d' % pos2, r.status(), len(r.out), len(want), r.err[:120])))
         res['nt'].append((enc, case['op'], case['lo'], case.get('second')))
@@ -282,7 +296,7 @@ def fam_opcodes(tier):
     """HFE v3: NOP / SETINDEX / SETBITRATE(arg 0,72,255) inserted at every byte position of a 4-sector track; pairs (opcode + NOP within 4 bytes)"""
     for enc in ('FM', 'MFM'):
         n = stream_len(enc)
-        ops = ['nop', 'setindex', 'setbitrate72'] if tier == 'quick' else list(OPS)
+        ops = ['nop', 'setindex', 'setbitrate72', 'skipbits3', 'skipbits0', 'skipbits7'] if tier == 'quick' else list(OPS)
         for op in ops:
             step = 64
             for lo in range(0, n + 1, step):
